@@ -279,6 +279,15 @@ fn plans(prop: &str, tier: Tier) -> Vec<Plan> {
 pub fn run(prop: &'static str, tier: Tier) -> i32 {
     let reporter = Reporter::new(prop);
     let mut ev = Evidence::new(prop, tier);
+    explore_plans(prop, tier, &reporter, &mut ev, 1.0);
+    ev.violations = reporter.new_violations();
+    let code = reporter.finish();
+    ev.write();
+    code
+}
+
+/// Explore every plan of the property; counts go into `ev`, violations to `reporter`.
+pub fn explore_plans(prop: &'static str, tier: Tier, reporter: &Reporter, ev: &mut Evidence, budget_share: f64) {
     let plans = plans(prop, tier);
     if plans.is_empty() {
         crate::vcore::machinery_error(&format!("no plan for {prop}"));
@@ -287,7 +296,7 @@ pub fn run(prop: &'static str, tier: Tier) -> i32 {
         Tier::Quick => Duration::from_secs(40),
         Tier::Thorough => Duration::from_secs(3000),
     };
-    let per_plan = budget / plans.len() as u32;
+    let per_plan = budget.mul_f64(budget_share) / plans.len() as u32;
     let mut per_cfg = vec![];
     let mut outcomes_total = 0;
     for p in plans.iter() {
@@ -297,7 +306,7 @@ pub fn run(prop: &'static str, tier: Tier) -> i32 {
             time_cap: per_plan,
             run_closure: true,
         };
-        let st = explore::<RouterWorld>(&p.cfg, &params, &reporter, &mut ev);
+        let st = explore::<RouterWorld>(&p.cfg, &params, reporter, ev);
         outcomes_total += st.outcomes;
         per_cfg.push(json!({
             "variant": p.cfg.variant, "v5": p.cfg.v5, "order_desc": p.cfg.order_desc, "max_out": p.cfg.max_out,
@@ -321,10 +330,6 @@ pub fn run(prop: &'static str, tier: Tier) -> i32 {
         "2-5 client identities, alphabets and depth bounds as listed per configuration".into(),
         "oracle = reference model in engine/src/e1/model.rs fed by consumed and decoded packets only".into(),
     ];
-    ev.violations = reporter.new_violations();
-    let code = reporter.finish();
-    ev.write();
-    code
 }
 
 pub fn replay(v: &serde_json::Value) -> i32 {
